@@ -1044,7 +1044,7 @@ def run(ctx):
 
 
 MANIFEST = dict(
-    text='Decides structural necessary conditions for curve sections: Curve::commands consumes exactly the operands its guard and advance constants state and agrees letter-by-letter with RobustPath::commands; every section method stores last_ctrl on every path (or delegates unconditionally), and on the relative path the stored control point is absolute (dependence closure reaches the current end point / absolute control polygon); every vertex count from arc_num_points that is used as a divisor is dominated by a clamp to >= 2 (or the n == 1 guard); the four adaptive samplers clamp the parameter step so the last vertex is the requested end point; one generic iteration of cubic, cubic_smooth, quadratic and quadratic_smooth, in relative and absolute mode, hands exactly the documented control points to the flattening routine and carries exactly the documented end/control point to the next section (polynomial identities); the flatness tests compare squared deviations only with the squared tolerance and fillet, ellipse, racetrack, cross and Curve::arc are dimensionally consistent throughout (powers-of-length analysis, ~190 resolved sites: no absolute threshold, no length compared with an area), angle reduction uses a floored modulo; the wrap-around indices of the Hobby solver are cyclic shifts in bounds, its rotated work arrays are filled completely with one common rotation and control points are stored back to the segment they were computed for (index expressions and memcpy extents evaluated exhaustively for count 2..7 and every rotation); an angle passed through elliptical_angle_transform is only multiplied by the semi-axes it was transformed for (forward dataflow over the CFG); two bounds of the same direction on one variable (fillet radius vs both adjacent edges) are applied independently, never else-chained. Tolerance and finiteness of sampled vertices are not decided.',
+    text='Decides structural necessary conditions for curve sections: Curve::commands consumes exactly the operands its guard and advance constants state and agrees letter-by-letter with RobustPath::commands; every section method stores last_ctrl on every path (or delegates unconditionally), and on the relative path the stored control point is absolute (dependence closure reaches the current end point / absolute control polygon); every vertex count from arc_num_points that is used as a divisor is dominated by a clamp to >= 2 (or the n == 1 guard); the four adaptive samplers clamp the parameter step so the last vertex is the requested end point; one generic iteration of cubic, cubic_smooth, quadratic and quadratic_smooth, in relative and absolute mode, hands exactly the documented control points to the flattening routine and carries exactly the documented end/control point to the next section (polynomial identities); the flatness tests compare squared deviations only with the squared tolerance and fillet, ellipse, racetrack, cross and Curve::arc are dimensionally consistent throughout (powers-of-length analysis, ~190 resolved sites: no absolute threshold, no length compared with an area), angle reduction uses a floored modulo; the wrap-around indices of the Hobby solver are cyclic shifts in bounds, its rotated work arrays are filled completely with one common rotation and control points are stored back to the segment they were computed for (index expressions and memcpy extents evaluated exhaustively for count 2..7 and every rotation); an angle passed through elliptical_angle_transform is only multiplied by the semi-axes it was transformed for (forward dataflow over the CFG); two bounds of the same direction on one variable (fillet radius vs both adjacent edges) are applied independently, never else-chained. Tolerance and finiteness of sampled vertices are not decided. The list overloads of cubic / cubic_smooth / quadratic / quadratic_smooth are interpreted on two sections (control points handed to the flattener, reference point of the second section, remembered control point). Polygon::fillet is interpreted in IEEE doubles on 30 (thorough 90) small polygons - square, L, triangle, both orientations, rotated across the atan2 cut, one radius / per-vertex radii / a radius too large - against the exact filleted outline: every corner arc is tangent to both edges, of the (clamped) radius, the short way round and within twice the tolerance. These polygons are samples: the rule decides them and the three branches of the angle reduction they reach, not every polygon.',
     note='Trusted: clang front end, gx, sa rules. `parametric` is exempt from the last_ctrl rule (stated reason in the checker).',
-    technique='operand-consumption tables + must-write dataflow over the CFG + dependence closure + clamp dominance + clamp-chain discipline',
+    technique='operand-consumption tables + must-write dataflow over the CFG + dependence closure + clamp dominance + clamp-chain discipline + interpretation of the section builders and of Polygon::fillet on sampled small polygons (sa/minieval, IEEE doubles; closest to a bounded test run by the checker\'s interpreter, see DESIGN 9.3)',
     design='§4 C15')
